@@ -703,6 +703,16 @@ def check_call_args(facts, run, prop, table, cfg):
                             break
                     if renamed_pi:
                         break
+            if not calls_:
+                # the wrapper reaches the inner routine only through a private intermediary (`verify_variant(SigVariant {..})`):
+                # the constants travel inside a value; which ones arrive is not decided here (and not reported)
+                inner = [g_ for g_ in calltree(facts, fn["id"]) if g_ != fn["id"] and g_ in facts.fns
+                         and re.fullmatch(ent["callee"], norm_name(facts.fns[g_]["name"]))]
+                if inner:
+                    run.oblige()
+                    run.stats = getattr(run, "stats", {})
+                    run.stats.setdefault("g10_undecided", []).append(fn["name"])
+                    continue
             for t in calls_:
                 tgt = facts.fns.get(t[1]["id"])
                 if tgt is None:
